@@ -173,3 +173,65 @@ Proof.
   exists [{| e_sid := 7; e_ty := 41; e_reader := false |}], [{| p_sid := 3; p_ty := 41; p_lib := okl; p_decodes := true |}].
   vm_compute. reflexivity.
 Qed.
+
+(* ---- what a record physically is, besides the label it travels under (C07: "payload types relabelled") ----
+   A record is (label, true type, decodes-under-its-own-label).  Under its own label it decodes iff it is well formed.  A main
+   record (SPANS / LOGS / UNIVARIATE_METRICS) has no parent_id column; every related-table decoder — attributes, and since
+   the fix span events, span links, the four data-point tables and exemplars — requires it: a main record under a related
+   label is refused ([strict]).  Before the fix the decoders of the tables with 32-bit ids looked every column up leniently and
+   accepted it when every id was null ([strict = false], [lenient] = the decoder's verdict).  Other mislabelled records may or
+   may not be accepted ([lenient]); that is the "decodable remainder". *)
+Record rec3 := { r_label : N; r_true : N; r_wf : bool; r_lenient : bool }.
+
+Definition is_main (t : N) : bool := N.eqb t T_SPANS || N.eqb t T_LOGS || N.eqb t T_METRICS.
+
+Definition accepts (strict : bool) (r : rec3) : bool :=
+  if N.eqb (r_label r) (r_true r) then r_wf r
+  else if is_main (r_true r) then negb strict && r_lenient r
+  else r_lenient r.
+
+Definition dispatch3 (strict : bool) (signal : N) (recs : list rec3) : fres :=
+  dispatch false signal (map (fun r => (r_label r, accepts strict r)) recs).
+
+Lemma count_ty_map strict t recs :
+  count_ty t (map (fun r => (r_label r, accepts strict r)) recs) = length (filter (fun r => N.eqb (r_label r) t) recs).
+Proof.
+  unfold count_ty. induction recs as [|r tl IH]; cbn [map filter fst]; [reflexivity|].
+  destruct (N.eqb (r_label r) t); cbn [length]; rewrite IH; reflexivity.
+Qed.
+
+Lemma main_type_is_main signal : is_main (main_type signal) = true.
+Proof. unfold is_main, main_type. destruct signal as [|[p|p|]]; reflexivity. Qed.
+
+(* Whatever labels the records of a batch travel under: with the strict decoders success-with-nothing is never returned
+   while a record that physically is the signal's main record is among those read. *)
+Theorem main_never_discarded signal recs :
+  (exists r, In r recs /\ r_true r = main_type signal) -> dispatch3 true signal recs <> FNothing.
+Proof.
+  intros (r & Hin & Htrue) H. unfold dispatch3, dispatch in H.
+  set (recs' := map (fun r => (r_label r, accepts true r)) recs) in *.
+  destruct (existsb (fun r0 => negb (existsb (N.eqb (fst r0)) (known_types signal))) recs' ||
+            (1 <? count_ty (main_type signal) recs')%nat ||
+            existsb (fun t => (1 <? count_ty t recs')%nat) (single_types signal) ||
+            existsb (fun r0 => negb (snd r0)) recs') eqn:Ebad; [discriminate|].
+  destruct (0 <? count_ty (main_type signal) recs')%nat eqn:Emain; [discriminate|].
+  apply orb_false_iff in Ebad. destruct Ebad as [_ Edec].
+  assert (Hacc : accepts true r = true).
+  { destruct (accepts true r) eqn:Ea; [reflexivity|]. exfalso.
+    assert (existsb (fun r0 => negb (snd r0)) recs' = true).
+    { apply existsb_exists. exists (r_label r, accepts true r). split; [|cbn [snd]; rewrite Ea; reflexivity].
+      unfold recs'. apply in_map_iff. exists r. split; [reflexivity|exact Hin]. }
+    congruence. }
+  unfold accepts in Hacc. destruct (N.eqb (r_label r) (r_true r)) eqn:El.
+  - apply N.eqb_eq in El. apply Nat.ltb_ge in Emain. unfold recs' in Emain. rewrite count_ty_map in Emain.
+    assert (Hf : In r (filter (fun r0 => N.eqb (r_label r0) (main_type signal)) recs)).
+    { apply filter_In. split; [exact Hin|]. rewrite El, Htrue. apply N.eqb_refl. }
+    destruct (filter (fun r0 => N.eqb (r_label r0) (main_type signal)) recs); [contradiction|cbn [length] in Emain; lia].
+  - rewrite Htrue, main_type_is_main in Hacc. cbn [negb andb] in Hacc. discriminate.
+Qed.
+
+(* before the fix: bare spans (every id null) relabelled to span events were accepted as an events table *)
+Example lenient_discards_relabelled_main :
+  dispatch3 false 0 [{| r_label := 42; r_true := 40; r_wf := true; r_lenient := true |}] = FNothing /\
+  dispatch3 true 0 [{| r_label := 42; r_true := 40; r_wf := true; r_lenient := true |}] = FErr.
+Proof. split; vm_compute; reflexivity. Qed.
